@@ -820,3 +820,107 @@ func init() {
 		return []Term{{r, "Bool", types.Typ[types.Bool]}}
 	}, modifies: func(*Frame, *ssa.CallCommon) []string { return nil }, doc: "bytes.Equal"}
 }
+
+// sort.Search(n, f) with f a closure that has a `pure E` contract: the result r satisfies
+// 0 <= r <= n, (r < n ==> E(r)) and E(j) is false for every j < r, provided E is monotone on [0,n)
+// (obligation). This is the contract of binary search (trusted).
+func init() {
+	nativeCalls["sort.Search"] = &nativeCall{exec: func(fr *Frame, cc *ssa.CallCommon, st *State, pos token.Pos) []Term {
+		vc := fr.vc
+		vc.callees["sort.Search (binary search over a monotone predicate; trusted)"] = true
+		n := fr.val(cc.Args[0])
+		r := vc.fresh("search")
+		vc.declare(r, "Int")
+		res := []Term{{r, "Int", types.Typ[types.Int]}}
+		vc.assumeIf(fr.curReach, fmt.Sprintf("(and (<= 0 %s) (<= %s %s))", r, r, n.S))
+		mc, ok := cc.Args[1].(*ssa.MakeClosure)
+		if !ok {
+			vc.unsupportedf("sort.Search with a predicate that is not a closure literal")
+			return res
+		}
+		fn := mc.Fn.(*ssa.Function)
+		spec := vc.lookupSpec(qualName(fn))
+		if spec == nil || spec.Pure == nil {
+			vc.unsupportedf("sort.Search predicate %s has no `pure` contract", qualName(fn))
+			return res
+		}
+		vc.callees[spec.Key] = true
+		mkCtx := func(arg Term) *SpecCtx {
+			env := map[string]Term{}
+			if len(fn.Params) > 0 {
+				env[fn.Params[0].Name()] = arg
+			}
+			for k, fv := range fn.FreeVars {
+				b := mc.Bindings[k]
+				lv := fr.lvalOf(b)
+				env[fv.Name()] = vc.loadL(lv, st)
+			}
+			return &SpecCtx{vc: vc, env: env, st: st, old: st, pkg: spec.Pkg}
+		}
+		at := func(x string) (string, bool) {
+			g, err := mkCtx(Term{x, "Int", types.Typ[types.Int]}).evalBool(spec.Pure.E)
+			if err != nil {
+				vc.unsupportedf("sort.Search predicate: %v", err)
+				return "", false
+			}
+			return g, true
+		}
+		// monotone predicate (obligation)
+		ea, ok1 := at("q_a")
+		eb, ok2 := at("q_b")
+		if ok1 && ok2 {
+			mono := fmt.Sprintf("(forall ((q_a Int) (q_b Int)) (=> (and (<= 0 q_a) (< q_a q_b) (< q_b %s) %s) %s))", n.S, ea, eb)
+			vc.oblige("precondition", fr.autoTags(), fr.curReach, mono, "sort.Search: the predicate is monotone on [0, n)", pos, nil)
+		}
+		if er, ok := at(r); ok {
+			vc.assumeIf(fr.curReach, fmt.Sprintf("(=> (< %s %s) %s)", r, n.S, er))
+		}
+		if ej, ok := at("q_j"); ok {
+			body := fmt.Sprintf("(=> (and (<= 0 q_j) (< q_j %s)) (not %s))", r, ej)
+			if pats := inferPatterns(body, "q_j"); len(pats) > 0 {
+				var ps []string
+				for _, p := range pats {
+					ps = append(ps, ":pattern ("+p+")")
+				}
+				body = fmt.Sprintf("(! %s %s)", body, strings.Join(ps, " "))
+			}
+			vc.assumeIf(fr.curReach, fmt.Sprintf("(forall ((q_j Int)) %s)", body))
+		}
+		return res
+	}, modifies: func(*Frame, *ssa.CallCommon) []string { return nil }, doc: "sort.Search"}
+	nativeCalls["crypto/md5.Sum"] = &nativeCall{exec: func(fr *Frame, cc *ssa.CallCommon, st *State, pos token.Pos) []Term {
+		vc := fr.vc
+		vc.callees["crypto/md5.Sum (an uninterpreted function of the content; trusted)"] = true
+		src := fr.byteSrc(cc.Args[0], st)
+		if !vc.declared["md5_of"] {
+			vc.declared["md5_of"] = true
+			if _, ok := vc.db.Sigs["md5_of"]; !ok {
+				vc.decls = append(vc.decls, "(declare-fun md5_of (Bytes) (Array Int Int))")
+			}
+		}
+		n := vc.fresh("md5")
+		vc.define(n, "(Array Int Int)", fmt.Sprintf("(md5_of (bytes_of %s %s %s))", src.arr, src.off, src.ln))
+		vc.assume(fmt.Sprintf("(forall ((j Int)) (! (and (<= 0 (select %s j)) (< (select %s j) 256)) :pattern ((select %s j))))", n, n, n))
+		return []Term{{n, "(Array Int Int)", cc.Signature().Results().At(0).Type()}}
+	}, modifies: func(*Frame, *ssa.CallCommon) []string { return nil }, doc: "md5.Sum"}
+	for _, nm := range []string{"Uint16", "Uint32", "Uint64"} {
+		nm := nm
+		nativeCalls["encoding/binary.(littleEndian)."+nm] = &nativeCall{exec: func(fr *Frame, cc *ssa.CallCommon, st *State, pos token.Pos) []Term {
+			vc := fr.vc
+			b := fr.val(cc.Args[len(cc.Args)-1])
+			w := beWidth(nm)
+			vc.oblige("bounds", fr.autoTags(), fr.curReach, fmt.Sprintf("(>= (sl_len %s) %d)", b.S, w), fmt.Sprintf("binary.LittleEndian.%s needs %d bytes", nm, w), pos, nil)
+			comp := vc.arrComp(types.Typ[types.Uint8])
+			arr := fmt.Sprintf("(select %s (sl_ref %s))", vc.get(st, comp), b.S)
+			var parts []string
+			for i := 0; i < w; i++ {
+				parts = append(parts, fmt.Sprintf("(* %s (select %s (+ (sl_off %s) %d)))", pow2(8*i), arr, b.S, i))
+			}
+			n := vc.fresh("le")
+			vc.define(n, "Int", "(+ "+strings.Join(parts, " ")+")")
+			rt := cc.Signature().Results().At(0).Type()
+			vc.assumeIf(fr.curReach, vc.wf(rt, n))
+			return []Term{{n, "Int", rt}}
+		}, modifies: func(*Frame, *ssa.CallCommon) []string { return nil }, doc: "little-endian decode"}
+	}
+}
